@@ -142,7 +142,7 @@ def run_unit(unit, rng, ctx):
     hist = []
     n_steps = int(rng.integers(10, 41))
     deriv_in_disp_mode = 0
-    read_ops = ['positions', 'displacements', 'displacements', 'cumulative', 'distances', 'msd', 'metrics', 'drift', 'to_volume', 'transitions', 'com', 'len', 'apply_drift']
+    read_ops = ['positions', 'displacements', 'displacements', 'cumulative', 'distances', 'msd', 'metrics', 'drift', 'to_volume', 'transitions', 'com', 'len', 'apply_drift', 'shape', 'rdf']
     deriv_ops = ['filter', 'filter', 'slice', 'slice', 'int', 'split', 'extend']
     ok = True
     for step in range(n_steps):
@@ -182,7 +182,7 @@ def run_unit(unit, rng, ctx):
                 ctx.check(len(o) == Tn and abs(o.total_time - Tn * dt) <= 1e-25 and np.allclose(np.asarray(o.get_lattice().matrix), m, atol=1e-12), f'after {hist}: len/total_time/get_lattice of "{live.origin}" are {len(o)}, {o.total_time!r}; expected {Tn}, {Tn * dt!r}', {'history': hist})
                 _ = repr(o)
                 desc = 'len/total_time/get_lattice/repr'
-            elif op in ('metrics', 'drift', 'to_volume', 'transitions', 'com', 'apply_drift'):
+            elif op in ('metrics', 'drift', 'to_volume', 'transitions', 'com', 'apply_drift', 'shape', 'rdf'):
                 desc = op
                 try:
                     if op == 'metrics':
@@ -200,6 +200,18 @@ def run_unit(unit, rng, ctx):
                         _ = o.to_volume(resolution=float(np.linalg.norm(m, axis=1).min() / int(rng.integers(2, 6))))
                     elif op == 'com':
                         _ = o.center_of_mass()
+                    elif op == 'shape':
+                        # shape analysis around one site, the trajectory treated as an integer supercell of a cell
+                        from gemdat.shape import ShapeAnalyzer
+                        from pymatgen.core import Lattice, PeriodicSite
+                        from pymatgen.symmetry.groups import SpaceGroup
+
+                        sc_ = tuple(int(x) for x in rng.integers(1, 3, size=3))
+                        lat_ = Lattice(m / np.array(sc_)[:, None])
+                        an_ = ShapeAnalyzer(sites=[PeriodicSite(live.names[0], rng.uniform(0, 1, size=3), lat_, label='s0')], lattice=lat_, spacegroup=SpaceGroup('P1'))
+                        _ = an_.analyze_trajectory(o, supercell=(None if sc_ == (1, 1, 1) else sc_), radius=float(0.3 * min(lat_.abc)))
+                    elif op == 'rdf':
+                        _ = o.radial_distribution_between_species(specie_1=live.names[0], specie_2=live.names[-1], max_dist=3.0, resolution=0.5) if hasattr(o, 'radial_distribution_between_species') else None
                     else:
                         from pymatgen.core import Structure
 
